@@ -55,6 +55,7 @@ package maven
 //@ func isNullElement
 //@   requires e.isNumber ==> isnum(e.value)
 //@   requires !e.isNumber ==> isstr(e.value)
+//@   ensures zero-like: result == (e.isNumber ? intof(e.value) == 0 : (strof(e.value) == "" || strof(e.value) == "final" || strof(e.value) == "ga" || strof(e.value) == "release"))   [C12]
 
 //@ spec wfRange(vr *VersionRange) bool = forall i int :: 0 <= i && i < len(vr.constraints) ==> vr.constraints[i].version != nil && wfElems(vr.constraints[i].version.elements)
 
@@ -65,7 +66,11 @@ package maven
 //@   requires wfElems(elements)
 //@   loop 1 invariant wfElems(elements)
 //@   loop 1 decreases len(elements)   // termination (C06)
+//@   loop 1 invariant trim: len(elements) <= len(old(elements)) && (forall i int :: 0 <= i && i < len(elements) ==> elements[i] == old(elements)[i]) && (forall i int :: len(elements) <= i && i < len(old(elements)) ==> isNullElement(old(elements)[i]))
 //@   ensures wf: wfElems(result)
+//@   ensures prefix: len(result) <= len(elements) && (forall i int :: 0 <= i && i < len(result) ==> result[i] == elements[i])   [C12] using trim
+//@   ensures drops-only-zero-like: forall i int :: len(result) <= i && i < len(elements) ==> isNullElement(elements[i])   [C12] using trim
+//@   ensures stops-at-a-real-token: len(result) > 0 ==> !isNullElement(result[len(result) - 1])   [C12] using trim
 
 //@ func parseVersionString
 //@   loop 1 invariant wfElems(elements)
